@@ -28,7 +28,9 @@ def has_binding(files):
     return '"t": "e"' in json.dumps(files)
 
 
-def report_records(ck, cases, records, pid_note=""):
+def report_records(ck, cases, records, pid_note="", template_under_test=False):
+    """template_under_test: the compiled source itself is what is being judged (C14: the re-printed text), so a
+    fresh creation that differs from the specification is a violation, not a disagreement between two oracles."""
     for rec in records:
         c = cases[rec["case"]]
         ck.evaluations += 1
@@ -46,9 +48,11 @@ def report_records(ck, cases, records, pid_note=""):
         for p in rec["problems"] or []:
             if p["what"].startswith("ORACLES-DISAGREE") and creation_wrong:
                 continue      # a consequence of the creation mismatch already reported for this case
-            if p["what"].startswith("ORACLES-DISAGREE") or p["what"].startswith("tool:"):
+            if p["what"].startswith("ORACLES-DISAGREE") and template_under_test:
+                p = dict(p, what="re-printed template: fresh creation differs from the specification")
+            elif p["what"].startswith("ORACLES-DISAGREE") or p["what"].startswith("tool:"):
                 raise vlib.ToolError("oracle disagreement / tool problem: %s\n%s" % (json.dumps(p), semrun.src_text(rec)))
-            ck.report({"sig": p["what"], "src": semrun.src_text(rec), "data": c["data"], "problem": p,
+            ck.report({"sig": p["what"], "src": semrun.src_text(rec), "data": c["data"], "problem": p, "variant": str(rec["variant"]),
                        "family": c.get("family"), "files": c["files"], "tree": c.get("tree"), "steps": c.get("steps")},
                       "%s: %s\n%s\ndata=%s" % (p["what"], json.dumps(p.get("diff") or p.get("msg")), semrun.src_text(rec),
                                                json.dumps(c["data"])[:300]))
